@@ -15,7 +15,7 @@
         or replaced boxes (inline-blocks being atomic).
    Outside it the Go code itself is not defined: drawInlineLevel panics on
    "unexpected box" (draw.go 1545); the model reproduces that Panic.         *)
-From Verif Require Import Base.GoSem Base.SortStable Draw.Stacking Draw.PaintSpec Draw.StackingProofs.
+From Verif Require Import Base.GoSem Base.SortStable Draw.Stacking Draw.PaintSpec Draw.StackingProofs Draw.StackingOnce.
 From Coq Require Import List ZArith NArith Bool Sorted Permutation.
 Import ListNotations.
 
@@ -182,8 +182,8 @@ Theorem C16_boxes_partition : forall b,
 Proof. exact boxes_partition. Qed.
 Print Assumptions C16_boxes_partition.
 
-(* ---- stated, proved only in part (the parts are the theorems above), and
-   tested on the model's events of every harness case (Check/C16.v code 8) ---- *)
+(* ---- stated here, proved in Draw/StackingOnce.v (the `_holds` theorems), and
+   also tested on the model's events of every harness case (Check/C16.v code 8) ---- *)
 
 (* every_box_painted_once: no event is issued twice.
    Proved part: C16_partition_permutation (no context lost or duplicated by
@@ -192,6 +192,9 @@ Definition C16_every_box_painted_once_statement : Prop :=
   forall zsort, z_then_tree_order css_level zsort ->
   forall b, wf_shape b = true -> NoDup (ids b) ->
   NoDup (spec_paint impl_forms_ctx css_level zsort b).
+Theorem C16_every_box_painted_once_holds : C16_every_box_painted_once_statement.
+Proof. exact every_box_painted_once. Qed.
+Print Assumptions C16_every_box_painted_once_holds.
 
 (* per_box_order: Bg < Border < Content < Outline for each id.
    Proved part: C16_background_then_border, C16_border_after_background
@@ -204,6 +207,9 @@ Definition C16_per_box_order_statement : Prop :=
      ~ In (Bg id) l2 /\ ~ In (Border id) l2 /\ ~ In (Content id) l2)
   /\ (spec_paint impl_forms_ctx css_level zsort b = l1 ++ Content id :: l2 ->
      ~ In (Bg id) l2 /\ ~ In (Border id) l2).
+Theorem C16_per_box_order_holds : C16_per_box_order_statement.
+Proof. exact per_box_order. Qed.
+Print Assumptions C16_per_box_order_holds.
 
 (* effects_bracket_subtree, the "all" half: nothing of the sub-tree of an
    opacity / transform box is painted outside its bracket (for the overflow
@@ -222,6 +228,9 @@ Definition C16_effects_bracket_subtree_statement : Prop :=
   | Outline _ => e = EClip
   | _ => False
   end.
+Theorem C16_effects_bracket_subtree_holds : C16_effects_bracket_subtree_statement.
+Proof. exact effects_bracket_subtree_all. Qed.
+Print Assumptions C16_effects_bracket_subtree_holds.
 
 (* ---- the hypotheses are inhabited ---- *)
 
